@@ -32,7 +32,9 @@ def cases():
         if os.path.exists(pf):
             meta = json.load(open(mf)) if os.path.exists(mf) else {}
             out.append({'id': 'seeded/' + os.path.basename(d), 'patch': pf, 'checks': meta.get('checks') or [meta.get('property')] if meta.get('property') else ALL,
-                        'expect': meta.get('expect', 'violation'), 'demo': os.path.join(d, meta.get('demo', 'demo.py'))})
+                        'expect': meta.get('expect', 'violation'),
+                        'demo': os.path.join(d, meta['demo']) if meta.get('demo', 'demo.py') and meta.get('demo') else
+                                (os.path.join(d, 'demo.py') if 'demo' not in meta else None)})
     for pf in sorted(glob.glob(os.path.join(VERIF, 'mutants', '*.patch'))):
         mf = pf[:-6] + '.json'
         meta = json.load(open(mf)) if os.path.exists(mf) else {}
